@@ -29,6 +29,9 @@ func tparamNames(decl string) []string {
 // interface, the wrappers and the typed carriers are related to the source
 // interface by plain assignments, which the type checker accepts only for
 // identical types.
+// a blank name in a type parameter list
+var c14BlankTParam = regexp.MustCompile(`[\[ ,](_)[ ,\]]`)
+
 func c14Assertions(g genCombo, cases []shapes.Case) (string, map[int]string) {
 	var b strings.Builder
 	lineCase := map[int]string{}
@@ -56,9 +59,9 @@ func c14Assertions(g genCombo, cases []shapes.Case) (string, map[int]string) {
 	for _, cs := range cases {
 		inst := ""
 		// the assertion function has to name every type parameter to instantiate the types it compares
-		for i := 0; strings.Contains(cs.TParamDecl, "[_ ") || strings.Contains(cs.TParamDecl, ", _ "); i++ {
-			cs.TParamDecl = strings.Replace(cs.TParamDecl, "[_ ", fmt.Sprintf("[Blank%d ", i), 1)
-			cs.TParamDecl = strings.Replace(cs.TParamDecl, ", _ ", fmt.Sprintf(", Blank%da ", i), 1)
+		for i := 0; c14BlankTParam.MatchString(cs.TParamDecl); i++ {
+			loc := c14BlankTParam.FindStringSubmatchIndex(cs.TParamDecl)
+			cs.TParamDecl = cs.TParamDecl[:loc[2]] + fmt.Sprintf("Blank%d", i) + cs.TParamDecl[loc[3]:]
 		}
 		if cs.TypeParams > 0 {
 			inst = "[" + strings.Join(tparamNames(cs.TParamDecl), ", ") + "]"
